@@ -525,8 +525,8 @@ def run_part(pid, tier="quick", seed=0, replay=None, report_pid=None):
         cases = [payload["case"]] if "case" in payload else payload.get("cases", [])
         bad = False
         for h, exe in exes:
-            _, il, _ = run_bin(exe, cases, args=h.get("args", ()))
-            _, ml, _ = run_bin(driver, cases) if driver else (0, ["missing | na"] * len(cases), "")
+            _, il, _ = run_bin(exe, cases, args=h.get("args", ()), extra_env=h.get("env"))
+            _, ml, _ = run_bin(driver, cases, extra_env=h.get("env")) if driver else (0, ["missing | na"] * len(cases), "")
             for c, a, b in zip(cases, il, ml):
                 e, s = split_legs(a)
                 m, p = split_legs(b)
